@@ -29,6 +29,7 @@ KNOBS = {
     "p_save_fail": 0.2,
     "p_hook_raise": 0.25,
     "p_cancel_fault": 0.12,
+    "p_ack_fail": 0.1,
     "p_timeout": 0.2,
     "p_sync": 0.15,
     "p_deps": 0.1,
